@@ -83,7 +83,9 @@ def oracle(c):
 
 def run(ctx):
     return _nfamily.run_family(ctx, oracle, lambda d: "api:" + d.split(" ")[0][:24], use_model=False,
-                               genkws=({"p_update": 0.5}, {"max_depth": 4, "nested_bias": True, "p_update": 0.3}, {"normalization": False}),
+                               genkws=({"p_update": 0.5}, {"max_depth": 4, "nested_bias": True, "p_update": 0.3}, {"normalization": False},
+                                       {"purge_bias": True, "nested_bias": True, "of_rules": False}),
+                               n_quick=3200,
                                rule="generated schemas with and without normalization rules, update in {F,T}; six fresh validators per case: validate vs errors vs "
                                     "validated (both conventions) vs normalized (both conventions) and, for readonly-free schemas, the composition law "
                                     "validate(d) = normalized(d) errors + validate(normalized(d), normalize=False) errors with equal processed documents. "
